@@ -281,7 +281,10 @@ def index_of(vc, data, sub):
 
 
 def nonempty_digits(vc, b):
-    return And(len_(b) > 0, all_digits(b))
+    if vc.mode == "native":
+        return len(b) > 0 and all_digits(b)
+    import z3
+    return SBool(z3.InRe(b.t, z3.Plus(z3.Range("0", "9"))))
 
 
 def to_int(vc, b):
@@ -303,8 +306,150 @@ def s_split(vc):
         i = len_(data) - len_(rest) - 1
         vc.ensure("ok.split_at_first_colon", And(i >= 0, i == j))
         vc.assume(i == j)      # cut: just proved on this path (a counter-model would already be reported above)
-        vc.ensure("ok.rest_is_everything_after_it", rest == sl(vc, data, j + 1, len_(data)))
-        vc.ensure("ok.length_is_decimal_prefix", Implies(nonempty_digits(vc, sl(vc, data, 0, j)), n == to_int(vc, sl(vc, data, 0, j))))
-        vc.ensure("ok.empty_prefix_never_accepted", j > 0)
+        vc.ensure("ok.rest_is_everything_after_it", rest == sl(vc, data, i + 1, len_(data)))
+        vc.ensure("ok.length_is_decimal_prefix", Implies(nonempty_digits(vc, sl(vc, data, 0, i)), n == to_int(vc, sl(vc, data, 0, i))))
+        vc.ensure("ok.empty_prefix_never_accepted", i > 0)
     else:
         vc.ensure("error.only_without_valid_prefix", Or(j < 0, Not(nonempty_digits(vc, sl(vc, data, 0, j)))))
+
+
+def parse_ghost(calls):
+    def f(vc, data_type, data):
+        data = data if is_sym(data) else bytes(data)
+        calls.append((data_type, data))
+        return vc.ghost("parsed", data_type, data)
+    return f
+
+
+@scenario("pop.framing", functions=[TN + ":pop", TN + ":split"], pc_slices=True)
+def s_pop(vc):
+    """pop(data) with parse abstracted: for data = DIGITS ":" PAYLOAD TAG REST it parses exactly (TAG, PAYLOAD) and returns
+    REST untouched; if PAYLOAD/TAG are not completely there it raises ValueError; nothing but ValueError is raised."""
+    data = vc.sym_bytes("buf")
+    calls = []
+    vc.summary(TN + ":parse", parse_ghost(calls))
+    vc.invariant(TN + ":split", 1, inv_split(vc))
+    out = vc.call(TN + ":pop", data)
+    vc.ensure("raises_only_valueerror", out.ok or out.raised_type() is ValueError)
+    vc.ensure("parse_at_most_once", len(calls) <= 1)
+    j = index_of(vc, data, b":")
+    if not vc.branch(And(j > 0, nonempty_digits(vc, sl(vc, data, 0, j)))):
+        return      # no decimal length prefix: only totality is claimed (Python's int() also accepts e.g. b" 5" / b"+5")
+    n = to_int(vc, sl(vc, data, 0, j))
+    L = len_(data)
+    if vc.branch(L < j + n + 2):
+        vc.ensure("short.raises_valueerror", (not out.ok) and out.raised_type() is ValueError)
+        vc.ensure("short.no_parse", len(calls) == 0)
+        return
+    vc.ensure("complete.returns", out.ok)
+    vc.ensure("complete.parse_once", len(calls) == 1)
+    if not out.ok or len(calls) != 1:
+        return
+    tag, payload = calls[0]
+    vc.ensure("complete.payload_exact", payload == sl(vc, data, j + 1, j + 1 + n))
+    vc.ensure("complete.tag", tag == code_at(data, j + 1 + n))
+    res = out.result
+    vc.ensure("complete.rest_untouched", res[1] == sl(vc, data, j + 2 + n, L))
+    vc.ensure("complete.value_is_parse_result", is_ghost(res[0], "parsed") and res[0][1] == tag and res[0][2] == payload)
+
+
+TAGS = {",": 44, ";": 59, "#": 35, "^": 94, "!": 33, "~": 126}
+
+
+def decode_utf8(vc, b):
+    if vc.mode == "native":
+        return b.decode("utf8")
+    import z3
+    from pyvc import lib
+    return SStr(lib.uf("decode_utf-8_strict", z3.StringSort(), z3.StringSort())(b.t))
+
+
+@scenario("parse.scalars", functions=[TN + ":parse"])
+def s_parse_scalars(vc):
+    tagname = vc.case("tag", list(TAGS) + ["unknown"])
+    data = vc.sym_bytes("payload")
+    if tagname == "unknown":
+        t = vc.sym_int("tag_byte", lo=0, hi=255)
+        for c in list(TAGS.values()) + [93, 125]:
+            vc.assume(t != c)
+    else:
+        t = TAGS[tagname]
+    out = vc.call(TN + ":parse", t, data)
+    vc.ensure("raises_only_valueerror", out.ok or issubclass(out.raised_type(), ValueError))
+    r = out.result
+    if tagname == "unknown":
+        vc.ensure("unknown_tag.rejected", not out.ok)
+    elif tagname == ",":
+        vc.ensure("bytes.identity", out.ok and vc.eq(r, data))
+    elif tagname == ";":
+        if out.ok:
+            vc.ensure("str.is_utf8_decoding", vc.eq(r, decode_utf8(vc, data)))
+    elif tagname == "#":
+        if out.ok:
+            vc.ensure("int.decimal_value", Implies(nonempty_digits(vc, data), vc.eq(r, to_int(vc, data))))
+        else:
+            vc.ensure("int.digits_always_accepted", Not(nonempty_digits(vc, data)))
+    elif tagname == "!":
+        vc.ensure("bool.true", Iff(data == b"true", And(out.ok, r is True or (is_sym(r) and vc.eq(r, True)))) if not out.ok or True else True)
+        vc.ensure("bool.false_or_error", Implies(And(data != b"true", data != b"false"), not out.ok))
+        if out.ok:
+            vc.ensure("bool.value", Iff(vc.eq(r, True), data == b"true"))
+    elif tagname == "~":
+        vc.ensure("null.iff_empty", Iff(len_(data) == 0, out.ok))
+        if out.ok:
+            vc.ensure("null.value", isnone(r))
+    elif tagname == "^":
+        pass  # float(): trusted library behaviour; only totality (ValueError) is claimed here, values in T2
+
+
+@scenario("parse.containers.iteration", functions=[TN + ":parse"])
+def s_parse_containers(vc):
+    """']' / '}' payloads: one arbitrary loop iteration with pop() abstracted by its contract (returns some value and a
+    strictly shorter rest, or raises ValueError): nothing but ValueError escapes."""
+    tag = vc.case("tag", [93, 125])
+    data = vc.sym_bytes("payload")
+    pop_fails = vc.sym_bool("pop_raises")
+
+    def pop_summary(v, d):
+        if v.branch(pop_fails):
+            raise_(v, ValueError, "not a tnetstring: ...")
+        rest = v.sym_bytes("rest_after_item" + str(len(seen)))
+        seen.append(rest)
+        v.assume(len_(rest) < len_(d))
+        return (v.ghost("item"), rest) if v.mode == "native" else STuple([v.ghost("item"), rest])
+
+    seen = []
+    vc.summary(TN + ":pop", pop_summary)
+    vc.invariant(TN + ":parse", 1, lambda it, env, idx: SBool(True))
+    out = vc.call(TN + ":parse", tag, data)
+    vc.ensure("raises_only_valueerror", out.ok or issubclass(out.raised_type(), ValueError))
+    if out.ok:
+        vc.ensure("returns_container", isa(out.result, list) if tag == 93 else isa(out.result, dict))
+
+
+@scenario("roundtrip.scalars", functions=[TN + ":loads", TN + ":dumps", TN + ":pop", TN + ":split", TN + ":parse", TN + ":_rdumpq"], pc_slices=True)
+def s_roundtrip(vc):
+    kind = vc.case("type", SCALARS)
+    v = mk_scalar(vc, kind, "v")
+    if kind == "int":
+        vc.assume(v >= 0)          # negative ints: T2 (their decimal text goes through the uninterpreted part of int())
+    if kind == "str":
+        vc.assume(encodable(vc, v))
+    o1 = vc.call(TN + ":dumps", v)
+    vc.ensure("dumps.no_exception", o1.ok)
+    if not o1.ok:
+        return
+    vc.invariant(TN + ":split", 1, inv_split(vc))
+    o2 = vc.call(TN + ":loads", o1.result)
+    vc.ensure("loads.no_exception", o2.ok)
+    if not o2.ok:
+        return
+    r = o2.result
+    if kind == "none":
+        vc.ensure("roundtrip.value", isnone(r))
+    elif kind in ("true", "false"):
+        vc.ensure("roundtrip.value", vc.eq(r, kind == "true"))
+    elif kind == "str":
+        vc.ensure("roundtrip.value", vc.eq(r, decode_utf8(vc, utf8(vc, v))))   # = v by the codec's own round trip (library)
+    else:
+        vc.ensure("roundtrip.value", vc.eq(r, v))
